@@ -149,6 +149,9 @@ fn directive_programs() -> Vec<(String, String)> {
 }
 
 pub fn run(ctx: &Ctx) {
+    if !crate::pipeline::DRIVER_SRC {
+        ctx.note("the driver's pure modules (preprocess.rs, error_helper.rs, print.rs) of the working tree do not compile stand-alone into the harness: in-process calls of preprocess() and of the print reader are replaced by stubs; the CLI parts decide for them");
+    }
     ctx.set_rule("(a) the complete shape enumeration of syntax.md (every mnemonic spelling x every operand-kind alternative x representative registers, all 5 addressing shapes x {none,ES,CS,SS,DS}), each rendered in lower and upper case and in decimal/hex/binary constants, embedded in a minimal program that declares what it needs; every directive and print form; (b) proptest-generated whole programs (with the C08 generator); for each program accepted by Preprocessor + label/start checks, every data line goes to the DataParser, every code line to the Interpreter in the context built from the same program, every print line to the print parser. Every shape counts once (distinct by construction).");
     ctx.assume("a shape documented in syntax.md that the assembler rejects is reported here too (the statement quantifies over every mnemonic, synonym, operand form and directive described in syntax.md)");
     ctx.set_exhaustive(true);
